@@ -201,11 +201,14 @@ def child_path(tree) -> Optional[list[int]]:
 # ------------------------------------------------------------------------------------------------
 
 class FuzzCall:
-    __slots__ = ("start", "budget", "path", "cap", "tape", "tree", "error", "grammar")
+    __slots__ = ("start", "budget", "path", "cap", "tape", "tree", "tree_json", "size", "not_modelled", "error", "grammar")
 
     def __init__(self):
         self.tape: list = []
         self.tree = None
+        self.tree_json = None        # the result AS RETURNED (later in-place edits of the object do not count)
+        self.size = 50
+        self.not_modelled = None
         self.error = None
 
 
@@ -377,6 +380,11 @@ class Recorder:
             try:
                 out = o_fuzz(self, start, max_nodes, prefix_node)
                 call.tree = out
+                try:
+                    call.size = out.size()
+                    call.tree_json = gio.tree_to_json(out)
+                except NotModelled as e:
+                    call.not_modelled = str(e)
                 return out
             except BaseException as e:
                 call.error = type(e).__name__
@@ -662,7 +670,7 @@ class PrimeRecorder:
 
 
 def expand_request(call: FuzzCall, fg: dict) -> dict:
-    size = call.tree.size() if call.tree is not None else 50
+    size = call.size
     if call.cap < 0:
         raise NotModelled("open repetitions with different caps")
     g = dict(fg)
